@@ -164,6 +164,7 @@ func runBlock(bj blockJob) blockObs {
 	if th == nil {
 		th = e.L
 	}
+	e.c.kind = 0 // no poll is being handled: the script goroutine is parked
 	obs.Stack = e.snapshot(th)
 	if len(obs.Stack) > 0 && obs.Stack[0] == "G" {
 		if polls(th) || th.Context() != nil {
